@@ -598,6 +598,41 @@ def main():
 ''', hostile=True, only='C01')
 
 
+P('deep_call', '''
+import sys, inspect
+DATA = {}
+def depth_now():
+    return len(inspect.stack(0))
+def leaf(i):
+    v = i + 1
+    return v
+def dive(n, i):
+    if n <= 0:
+        return leaf(i)
+    m = n - 1
+    return dive(m, i)
+def reach(k):
+    """Call leaf() with k frames left below the recursion limit."""
+    room = sys.getrecursionlimit() - depth_now()
+    try:
+        return dive(room - k - 2, k)
+    except RecursionError:
+        return 'RecursionError'
+def main():
+    old = sys.getrecursionlimit()
+    sys.setrecursionlimit(depth_now() + 80)
+    try:
+        res = []
+        for k in range(3, 41):
+            res.append(reach(k))
+    finally:
+        sys.setrecursionlimit(old)
+    DATA['res'] = res
+    out('deep_call', len(res))
+    return res
+''', hostile=True, only='C15')
+
+
 P('warns', '''
 import warnings
 DATA = {}
